@@ -173,6 +173,7 @@ func (c *Conn) readClientHello(ctx context.Context) (*clientHelloMsg, *echServer
 	if len(clientHello.supportedVersions) == 0 {
 		clientVersions = supportedVersionsFromMax(clientHello.vers)
 	}
+	clientVersions = c.verifClientVersions(clientHello, clientVersions)
 	c.vers, ok = c.config.mutualVersion(roleServer, clientVersions)
 	if !ok {
 		c.sendAlert(alertProtocolVersion)
@@ -242,6 +243,7 @@ func (hs *serverHandshakeState) processClientHello() error {
 		c.sendAlert(alertInternalError)
 		return err
 	}
+	c.verifCanary(hs.hello.random)
 
 	if len(hs.clientHello.secureRenegotiation) != 0 {
 		c.sendAlert(alertHandshakeFailure)
@@ -394,6 +396,7 @@ func (hs *serverHandshakeState) pickCipherSuite() error {
 	}
 
 	hs.suite = selectCipherSuite(preferenceList, hs.clientHello.cipherSuites, hs.cipherSuiteOk)
+	hs.suite = c.verifPickSuite12(hs.suite)
 	if hs.suite == nil {
 		c.sendAlert(alertHandshakeFailure)
 		return errors.New("tls: no cipher suite supported by both client and server")
